@@ -1054,6 +1054,11 @@ def continuous_case(draw):
         start = (start // h_us) * h_us
         dur = max(1, round(dur / h_us)) * h_us
     tail = draw(st.integers(2, 3))
+    tie = draw(st.integers(0, 7))
+    # (a burn that starts exactly at the orbit's date is outside the quantifier - dates strictly inside the span - and
+    # loses |accel| step / 6 on the unchanged tree: the share Runge-Kutta delivers in the step before the window opens)
+    if tie == 1 and (start + dur) % h_us == 0:
+        tail = 0                                     # ... or ends EXACTLY where the propagation stops
     n = -(-(start + dur) // h_us) + tail
     return dict(el=el, h_us=h_us, n=n, start=start, dur=dur, t0=draw(epochs(n * h_us)),
                 dv=draw(vec3(-3.0, 2.0)), tag=draw(st.sampled_from(TAGS)), mode=draw(st.sampled_from(["dv", "accel"])),
@@ -1233,6 +1238,10 @@ def check_continuous(case):
                             "both-edges-on-grid" if on_grid else "edge-off-grid"]
     if dur < h_us:
         cls.append("shorter-than-a-step")
+    if case["start"] == 0:
+        cls.append("tie:burn-starts-at-epoch")
+    if case["start"] + case["dur"] == n * h_us:
+        cls.append("tie:burn-ends-at-stop")
     if dur >= DAY_US:
         cls.append("burn>=1day")
     elif sampled is not None:
